@@ -528,6 +528,40 @@ class Item:
         self.log.append({"kind": "desugar-for", "loop": k, "pattern": P, "iter": E,
                          "why": "rustc's own desugaring; Verus `for` cannot contain `continue`"})
 
+    def drop_logs(self, expect):
+        """delete every `trace!/debug!/info!/warn!/error!( .. );` statement (tracing macros; also the
+        `tracing::warn!` path form).  The arguments are NOT kept: any argument containing an
+        arithmetic operator or an index expression is listed in the edit log so a reviewer can see
+        that no panicking expression was dropped."""
+        names = {"trace", "debug", "info", "warn", "error"}
+        n = 0
+        risky = []
+        i = 0
+        while i < len(self.toks) - 2:
+            t = self.toks[i]
+            if t.s in names and self.toks[i + 1].s == "!" and self.toks[i + 2].s == "(" and t.line != 0:
+                c = match_close(self.toks, i + 2)
+                start = i
+                if start >= 3 and self.toks[start - 1].s == ":" and self.toks[start - 2].s == ":" and self.toks[start - 3].s == "tracing":
+                    start -= 3
+                end = c + 1
+                if end < len(self.toks) and self.toks[end].s == ";":
+                    end += 1
+                args = texts(self.toks[i + 3:c])
+                for k, a in enumerate(args):
+                    if a in ("+", "-", "*", "/", "%", "<<", ">>") or (a == "[" and k > 0 and _IDENT.fullmatch(args[k - 1] or "")):
+                        risky.append(" ".join(args)[:200])
+                        break
+                del self.toks[start:end]
+                n += 1
+                i = start
+                continue
+            i += 1
+        if n != expect:
+            raise LostAnchor("drop-log: found %d log statements in %s, expected %d" % (n, self.path, expect))
+        self.log.append({"kind": "drop-log", "count": n, "args_with_arithmetic_or_index": risky,
+                         "why": "logging only; arguments are not evaluated in the verified text"})
+
     def desugar_match_str(self, nth, eqfn):
         """match T { "a" => {A} "b" => {B} _ => {Z} }  ==>
            if eqfn(T, "a") {A} else if eqfn(T, "b") {B} else {Z}
